@@ -12,9 +12,9 @@ import (
 // Dates around year / ISO-week-year / month / leap boundaries, with their
 // reference ISO (week-year, week) written down from the calendar.
 var zzBoundaryDates = []struct {
-	y, m, d      int
-	wy, ww       int
-	ordinalKey   int // yyyymmdd
+	y, m, d    int
+	wy, ww     int
+	ordinalKey int // yyyymmdd
 }{
 	{2019, 12, 29, 2019, 52, 20191229},
 	{2019, 12, 30, 2020, 1, 20191230},
@@ -55,6 +55,9 @@ func ZZ_C12_Partition() {
 		k := zz.Choose(len(zzBoundaryDates))
 		b := zzBoundaryDates[k]
 		d, _ := klog.NewDate(b.y, b.m, b.d)
+		if i == 1 && zz.Choose(2) == 1 {
+			d = klog.ZZRawDateFmt(b.y, b.m, b.d, false) // mixed notations in one file are valid
+		}
 		r := klog.NewRecord(d)
 		v := zz.IntRange("mins", -100000, 100000)
 		r.AddDuration(klog.NewDuration(0, v), nil)
